@@ -322,7 +322,8 @@ class Result:
                                      "failed_obligations": [n for n in self.notes if n.startswith("obligation failed")][:10],
                                      "log": self.extra.get("broken_proof_log", "")}, False))
         wall = now() - self.t0
-        os.makedirs(os.path.join(ROOT, "evidence"), exist_ok=True)
+        evdir = os.environ.get("VERIF_EVIDENCE_DIR") or os.path.join(ROOT, "evidence")
+        os.makedirs(evdir, exist_ok=True)
         cov = {
             "obligations": max(self.obligations, 1),
             "discharged": self.discharged,
@@ -346,7 +347,7 @@ class Result:
             "wall_s": round(wall, 2),
             "violations": len(self.violations),
         }
-        json.dump(ev, open(os.path.join(ROOT, "evidence", self.prop + ".json"), "w"), indent=1)
+        json.dump(ev, open(os.path.join(evdir, self.prop + ".json"), "w"), indent=1)
         for k in self.known_hits:
             print("KNOWN-FINDING: property=%s %s" % (self.prop, k.get("what", k["id"])))
         if self.violations:
